@@ -22,12 +22,13 @@ import (
 
 func main() {
 	r := vlib.Start("C09")
-	start := time.Now()
 	dir, clean := vlib.Scratch("c09")
 	dnsfix.Quiet(dir)
 
 	maxExtras := r.Pick(2, 3)
-	kDB := r.Pick(2, 3)
+	// real-database space of part 2 (see dbSpace): quick = all files of <=1 line + sets of 2 lines of a 7-line core;
+	// thorough = all sequences of <=2 lines + sets of 3 lines of the 8-line core
+	db := newDBSpace(r.Pick(1, 2), r.Pick(2, 3), r.Pick(7, 8))
 	kMem := r.Pick(3, 4)
 
 	// ---- part 1
@@ -38,7 +39,7 @@ func main() {
 
 	// ---- part 2
 	t0 = time.Now()
-	ps := runPreproc(r, dir, kDB, kMem, start.Add(time.Duration(r.Pick(75, 600))*time.Second))
+	ps := runPreproc(r, dir, db, kMem)
 	debugf("part 2: %.1fs", time.Since(t0).Seconds())
 
 	total := ls.evals + ls.minimEvals + ps.dbPairs + ps.memPairs
@@ -75,7 +76,8 @@ func main() {
 	r.Set("line_rejected_evaluations_per_type", ls.rejectedPerType)
 
 	r.Set("preproc_alphabet_lines", len(palphabet))
-	r.Set("preproc_max_lines_database", kDB)
+	r.Set("preproc_max_lines_database_full_alphabet", db.kAll)
+	r.Set("preproc_max_lines_database_core_alphabet", db.kCore)
 	r.Set("preproc_max_lines_parsed_stream", kMem)
 	r.Set("preproc_files_database", ps.files)
 	r.Set("preproc_database_pairs_compiled", ps.dbPairs)
@@ -86,13 +88,10 @@ func main() {
 	r.Set("preproc_comparisons_skipped_original_rejected", ps.skipped)
 	r.Set("preproc_comparisons_failing", ps.failing)
 	r.Set("serial", dnsfix.Serial)
-	r.Set("preproc_files_database_not_run_wall_clock_cap", ps.dbCapped)
-	if ps.dbCapped > 0 {
-		r.Exhaustive = false
-		r.Note("wall-clock cap reached: %d files (the largest ones, files are processed in order of size) were compared on the parsed key/value stream only, not on a real RocksDB", ps.dbCapped)
-	}
+	r.Set("preproc_database_core_alphabet", dbCore[:len(db.core)])
+	r.Set("preproc_database_rocksdb_compiles", 2*ps.dbPairs)
 
-	r.Set("rule", fmt.Sprintf("part 1: for each of the 17 line types, every vector of the core option lattice (each optional field absent / explicitly default / other value, separator ',' or ':', trailing empty fields trimmed or written) plus every vector with 1..%d fields carrying an edge value (escaped bytes, wildcard, upper case, trailing/doubled dot, root, IPv6 / IPv4-mapped, 0/1/max/overflow, escaped locations ...) over the all-absent, all-default and all-other contexts; each line decoded, re-serialised, re-decoded and compiled by the real codec under 4 configurations (v1/v2 keys x CDB-style/RocksDB-style codec) with a fresh codec per decode; failing vectors are minimised by resetting options to the base. part 2: every sequence without repetition of <=%d lines of a %d-line alphabet compiled to a real RocksDB (v1 and v2) before and after the real Codec.Preprocess and the raw dumps compared; the same comparison on the parsed key/value stream for <=%d lines. states = distinct lines + files; transitions = oracle evaluations (incl. minimisation); nontrivial = lines whose normal form differs from the input + files changed by preprocessing", maxExtras, kDB, len(palphabet), kMem))
+	r.Set("rule", fmt.Sprintf("part 1: for each of the 17 line types, every vector of the core option lattice (each optional field absent / explicitly default / other value, separator ',' or ':', trailing empty fields trimmed or written) plus every vector with 1..%d fields carrying an edge value (escaped bytes, wildcard, upper case, trailing/doubled dot, root, IPv6 / IPv4-mapped, 0/1/max/overflow, escaped locations ...) over the all-absent, all-default and all-other contexts; each line decoded, re-serialised, re-decoded and compiled by the real codec under 4 configurations (v1/v2 keys x CDB-style/RocksDB-style codec) with a fresh codec per decode; failing vectors are minimised by resetting options to the base. part 2: real RocksDB (v1 and v2 keys) compiled before and after the real Codec.Preprocess and the raw dumps compared for every sequence without repetition of <=%d lines of the %d-line alphabet plus every set of <=%d lines (written in alphabet order) of its %d-line core (one %% line per map, the indented %% line, the SOA serial variants, one ordinary line); the same comparison on the parsed key/value stream (dnsdata.Parse with the compiler's codec) for every sequence of <=%d lines of the full alphabet. states = distinct lines + files; transitions = oracle evaluations (incl. minimisation); nontrivial = lines whose normal form differs from the input + files changed by preprocessing", maxExtras, db.kAll, len(palphabet), db.kCore, len(db.core), kMem))
 	r.Assume = []string{
 		"well-formed = the field layouts of tinydns-data as implemented by dnsdata (docs/data_format.md), values drawn from the variant lists in lattice.go",
 		"the compiled meaning of a line includes the codec accumulator output (prefix sets / range points) of a codec that saw only that line",
